@@ -21,9 +21,9 @@ TECHNIQUE = 'offline history checker over recorded operation sequences against f
 RULE = ('files: multi-chunk multi-segment model files (contiguous, interleaved, strings, timestamps) and DAQmx files; histories of 20-60 '
         'ops; non-trivial = history with >=2 live generators interleaved with >=1 random read; distinct = (file signature, op-kind sequence)')
 ASSUMPTIONS = ['a generator created at step k must deliver the same chunk sequence as one created on a fresh file']
-REQUIRED = ['family:long', 'ops', 'gen_next_checked', 'generators_drained', 'file_generators', 'channel_generators', 'family:model', 'family:daqmx']
+REQUIRED = ['family:short-middle', 'family:scaled', 'family:long', 'ops', 'gen_next_checked', 'generators_drained', 'file_generators', 'channel_generators', 'family:model', 'family:daqmx']
 N = {'quick': 8000, 'thorough': 400000}
-KINDS = ['index', 'slice', 'read', 'new_gen', 'next_chan', 'next_file']
+KINDS = ['index', 'slice', 'read', 'new_gen', 'next_chan', 'next_file', 'read_unscaled']
 
 
 def gen_cases(tier, seed):
@@ -31,6 +31,10 @@ def gen_cases(tier, seed):
         yield {'fam': 'daqmx' if i % 5 == 4 else 'model', 's': seed * 1000003 + i}
     for i in range(N[tier] // 100):
         yield {'fam': 'long', 's': seed * 1000003 + i}
+    for i in range(N[tier] // 10):
+        yield {'fam': 'short-middle', 's': seed * 1000003 + i}
+    for i in range(N[tier] // 10):
+        yield {'fam': 'scaled', 's': seed * 1000003 + i}
 
 
 def shard_setup(ctx):
@@ -50,11 +54,64 @@ def build(case):
             if sum(len(s.chunks) for s in segs) >= 2:
                 break
         return M.encode_file(segs)[0], tuple(s.signature() for s in segs), [s.describe() for s in segs][:4], rng
+    if case['fam'] == 'short-middle':
+        segs, blob = short_middle_file(rng)
+        return blob, ('short-middle',) + tuple(s.signature() for s in segs), {'segments': [s.describe() for s in segs][:3]}, rng
+    if case['fam'] == 'scaled':
+        segs = scaled_file(rng)
+        return M.encode_file(segs)[0], ('scaled',) + tuple(s.signature() for s in segs), [s.describe() for s in segs][:2], rng
     if case['fam'] == 'long':
         segs = long_file(rng)
         return M.encode_file(segs)[0], ('long', len(segs)) + tuple(s.signature() for s in segs[-3:]), {'segments': len(segs), 'last': segs[-1].describe()}, rng
     f, _ = DQ.build({'s': case['s']})
     return f.encode()[0], ('daqmx',) + f.signature(), f.describe(), rng
+
+
+def short_middle_file(rng):
+    """A readable but irregular shape: a segment in the middle of the file whose raw data is shorter than a whole number
+    of chunks (its final chunk is short), followed by further segments holding more data of the same channels.
+    There is no model for what such a file 'means'; the checks using it compare with the eager / fresh read."""
+    import struct
+    while True:
+        t = rng.choice(['i32', 'f64', 'u8', 'i16'])
+        nch = rng.randint(1, 2)
+        n0 = rng.choice([3, 4, 5, 7])
+        chans = [('g', 'c%d' % i, t, n0, []) for i in range(nch)]
+        segs = M.build_file(rng, chans, nseg=rng.randint(3, 5), nchunks=(2, 3), continuation=rng.choice(['same', 'none', 'full']),
+                            inter=False)      # an interleaved segment with a short final chunk in mid-file is not readable at all
+                                              # (TdmsFile.read raises ValueError: the reader runs into the next lead-in) - outside the domain
+        blob, _, lay = M.encode_file(segs)
+        k = rng.randrange(0, len(segs) - 1)          # never the last segment
+        l = lay.segs[k]
+        size = M.TYPES[t][2]
+        row = size * (nch if segs[k].interleaved else 1)
+        drop_rows = rng.randint(1, n0 - 1)
+        if segs[k].interleaved:
+            drop = drop_rows * row
+        else:
+            drop = drop_rows * size                     # the last channel of the last chunk loses values
+        if l['end'] - l['data_start'] <= drop:
+            continue
+        new_end = l['end'] - drop
+        b = bytearray(blob[:new_end] + blob[l['end']:])
+        e = segs[k].endian
+        nxt = struct.unpack(e + 'Q', bytes(b[l['start'] + 12:l['start'] + 20]))[0]
+        b[l['start'] + 12:l['start'] + 20] = struct.pack(e + 'Q', nxt - drop)
+        return segs, bytes(b)
+
+
+def scaled_file(rng):
+    """Multi-chunk file whose channels carry a Linear scale: the one-chunk cache then holds scaled values."""
+    from vlib import scalegen as SG
+    chans = []
+    for i in range(rng.randint(1, 3)):
+        t = rng.choice(['i16', 'i32', 'f32', 'u8'])
+        sc = [dict(kind='Linear', slope=rng.choice([2.0, 0.5, -3.0]), intercept=rng.choice([1.0, 0.0, 10.0]), src=None)]
+        chans.append(('g', 'c%d' % i, t, rng.choice([2, 3, 5]), SG.graph_props(sc)))
+
+    def vf(p, t, n):
+        return np.array([rng.randrange(0, 100) for _ in range(n)]).astype(M.TYPES[t][1])
+    return M.build_file(rng, chans, nseg=rng.randint(2, 4), nchunks=(2, 3), values_fn=vf)
 
 
 def long_file(rng):
@@ -110,6 +167,8 @@ def run_case(case, ctx):
                 for ch in g.channels():
                     try:
                         fresh[(g.name, ch.name)] = {'R': ch[:]}
+                        U = ch.read_data(scaled=False)
+                        fresh[(g.name, ch.name)]['U'] = None if isinstance(U, dict) else C.image(U)
                         chans.append((g.name, ch.name))
                     except ValueError:
                         pass      # DAQmx raw channel without scaling information: not readable as scaled data
@@ -143,7 +202,7 @@ def run_case(case, ctx):
     try:
         for step in range(nops):
             live = [g for g in gens if not g['done']]
-            choices = ['index', 'slice', 'read', 'new_gen']
+            choices = ['index', 'slice', 'read', 'new_gen', 'read_unscaled']
             if any(g['kind'] == 'chan' for g in live):
                 choices += ['next_chan'] * 2
             if any(g['kind'] == 'file' for g in live):
@@ -157,7 +216,7 @@ def run_case(case, ctx):
             ch = tf[key[0]][key[1]]
             R, Rimg = fresh[key]['R'], fresh[key]['Rimg']
             n = len(R)
-            if len(live) >= 2 and kind in ('index', 'slice', 'read'):
+            if len(live) >= 2 and kind in ('index', 'slice', 'read', 'read_unscaled'):
                 randread_between = True
             if kind == 'index':
                 if n == 0:
@@ -177,6 +236,14 @@ def run_case(case, ctx):
                 got = ch.read_data(o, l)
                 want = C.image_slice(Rimg, slice(o, None if l is None else o + l))
                 record(kind, (key, o, l), C.img_equal(C.image(got), want), {'why': 'wrong-values', 'got': C.short(C.image(got)), 'want': C.short(want)})
+            elif kind == 'read_unscaled':
+                Uimg = fresh[key].get('U')
+                if Uimg is None:
+                    continue
+                o, l = rng.randrange(0, n + 1), rng.choice([None, 0, 1, 2, 3])
+                got = ch.read_data(o, l, scaled=False)
+                want = C.image_slice(Uimg, slice(o, None if l is None else o + l))
+                record(kind, (key, o, l), C.img_equal(C.image(got), want), {'why': 'wrong-unscaled-values', 'got': C.short(C.image(got)), 'want': C.short(want)})
             elif kind == 'new_gen':
                 if rng.random() < 0.5:
                     gens.append({'kind': 'chan', 'key': key, 'it': ch.data_chunks(), 'delivered': 0, 'done': False})
